@@ -47,6 +47,8 @@ pub struct Scenario {
 	pub drain_event: bool,
 	/// enumerate crash images of every edge's event (E2)
 	pub crash: Option<crate::crashmc::CrashCfg>,
+	/// inject a persistent I/O failure at every file-operation index of every edge's event (E2 family 5)
+	pub faults: bool,
 	pub check_iter_rc: bool,
 }
 
@@ -71,6 +73,7 @@ impl Scenario {
 			filter: None,
 			drain_event: false,
 			crash: None,
+			faults: false,
 			check_iter_rc: true,
 		}
 	}
@@ -112,6 +115,7 @@ pub struct Stats {
 	pub levels: Vec<(usize, usize)>,
 	pub known_hits: std::collections::BTreeMap<String, u64>,
 	pub crash: crate::crashmc::CrashStats,
+	pub faults: crate::faultmc::FaultStats,
 	pub complete: bool,
 	pub capped_reason: Option<String>,
 }
@@ -133,6 +137,7 @@ impl Stats {
 			*self.known_hits.entry(k.clone()).or_insert(0) += v;
 		}
 		self.crash.merge(&o.crash);
+		self.faults.merge(&o.faults);
 		self.complete &= o.complete;
 		if self.capped_reason.is_none() {
 			self.capped_reason = o.capped_reason.clone();
@@ -223,6 +228,7 @@ pub struct EdgeOut {
 	/// ids of listed known findings that this execution ran into (tolerated, reported once)
 	pub known: Vec<String>,
 	pub crash: crate::crashmc::CrashStats,
+	pub faults: crate::faultmc::FaultStats,
 }
 
 pub enum EdgeRes {
@@ -257,8 +263,18 @@ fn run_edge_here(scn: &Scenario, dir: &Path, hist: &[Ev], ev: Option<&Ev>) -> Ed
 		},
 	};
 	ex.record_prefix = scn.crash.is_some();
-	let r = run_edge_inner(scn, hist, ev, ex);
+	let mut r = run_edge_inner(scn, hist, ev, ex);
 	crate::crash::stop();
+	if let (true, Some(ev), EdgeRes::Ok(o)) = (scn.faults, ev, &mut r) {
+		let fdir = dir.with_extension("faults");
+		let mut fs = crate::faultmc::FaultStats::default();
+		let fr = crate::faultmc::sweep(scn, &fdir, hist, ev, &mut fs);
+		let _ = std::fs::remove_dir_all(&fdir);
+		match fr {
+			Ok(()) => o.faults = fs,
+			Err(f) => return EdgeRes::Fail(f),
+		}
+	}
 	r
 }
 
@@ -360,6 +376,7 @@ fn run_edge_inner(scn: &Scenario, hist: &[Ev], ev: Option<&Ev>, mut ex: Exec) ->
 			pm_mask: ex.pm.mask(),
 			known,
 			crash: crash_stats,
+			faults: Default::default(),
 		}))
 	})();
 	match res {
@@ -536,6 +553,7 @@ pub fn graph_search(scn: &Scenario, budget: &Budget) -> (Stats, Option<Found>) {
 						*stats.known_hits.entry(k.clone()).or_insert(0) += 1;
 					}
 					stats.crash.merge(&o.crash);
+					stats.faults.merge(&o.faults);
 					if o.rejected && frontier[*ni].rejects >= scn.max_rejects {
 						// the rejected commit was executed and judged; its successor state is beyond the bound
 						stats.transitions += 1;
@@ -703,6 +721,7 @@ pub fn encode_edge(r: &EdgeRes) -> Vec<u8> {
 		EdgeRes::Ok(o) => json!({"t": "ok", "id": format!("{:032x}", o.identity), "model": o.model, "obs": o.obs,
 			"ms": o.multi_stage, "pm": o.pm_steps, "rej": o.rejected, "mask": o.pm_mask, "known": o.known,
 			"cp": o.crash.crash_points, "ci": o.crash.images, "cd": o.crash.distinct_images, "cr": o.crash.recoveries, "cn": o.crash.nested_recoveries,
+			"fr": o.faults.runs, "fh": o.faults.faults_hit, "fe": o.faults.errors_reported, "fc": o.faults.commits_refused, "fo": o.faults.reopened, "fm": o.faults.max_ops_in_step,
 			"cpl": o.crash.power_loss_images, "cmd": o.crash.max_dirty_pages, "csc": o.crash.subsets_capped, "crt": o.crash.recovered_to}),
 	};
 	serde_json::to_vec(&j).unwrap()
@@ -722,6 +741,14 @@ pub fn decode_edge(b: &[u8]) -> EdgeRes {
 			rejected: j["rej"].as_bool().unwrap(),
 			pm_mask: j["mask"].as_u64().unwrap() as u8,
 			known: j["known"].as_array().unwrap().iter().map(|x| x.as_str().unwrap().to_string()).collect(),
+			faults: crate::faultmc::FaultStats {
+				runs: j["fr"].as_u64().unwrap(),
+				faults_hit: j["fh"].as_u64().unwrap(),
+				errors_reported: j["fe"].as_u64().unwrap(),
+				commits_refused: j["fc"].as_u64().unwrap(),
+				reopened: j["fo"].as_u64().unwrap(),
+				max_ops_in_step: j["fm"].as_u64().unwrap(),
+			},
 			crash: crate::crashmc::CrashStats {
 				crash_points: j["cp"].as_u64().unwrap(),
 				images: j["ci"].as_u64().unwrap(),
